@@ -43,7 +43,7 @@ Theorem T11_inflight_completes : forall g l g' i,
      (exists c', getc g' i = Some c' /\ in_flight (pc c') = true) \/ (exists b e, l = Wrote i b e) \/ l = TConnRefuse i) /\
   (stepf g (TDecide i) = Some g' -> exists c', getc g' i = Some c' /\ pc c' = CWriting (closing g)) /\
   (forall b e, stepf g (Wrote i b e) = Some g' ->
-     exists c c', getc g i = Some c /\ getc g' i = Some c' /\ pc c = CWriting2 b /\
+     exists c c', getc g i = Some c /\ getc g' i = Some c' /\ (pc c = CWriting2 b \/ (pc c = CWriting b /\ e = true)) /\
        pc c' = (if is_connect c || b || e then CExit else CWait) /\
        (e = true -> sock_closed c = true \/ client_gone c = true)).
 Proof. exact (fun g l g' i => conj (fun c Hs => inflight_not_abandoned g l g' i c Hs)
